@@ -9,7 +9,18 @@ _COMMON_TRUST = [
 _INT_FUNCS = ['field:Field._compile_impl', 'field:Int._compile', 'field:Int._unpack_fixed_and_primitive_size',
               'field:Int._unpack_fixed_size', 'field:Int._pack_fixed_and_primitive_size', 'field:Int._pack_fixed_size']
 
+_DATA_FUNCS = ['field:Data._unpack_fixed_size', 'field:Data._unpack_variable_size_field',
+               'field:Data._unpack_variable_size_callable', 'field:Data._unpack_with_string_marker',
+               'field:Data._unpack_with_regexp_marker', 'field:Data.pack']
+
 PROPERTIES = {
+    'C06': dict(
+        level='proof',
+        functions=_DATA_FUNCS,
+        trusted_base=_COMMON_TRUST,
+        assumptions=['offset >= 0', 'a bytes marker is non-empty', 'size callbacks are pure (role contract)',
+                     're.search returns the leftmost match (opaque pattern semantics)'],
+    ),
     'C05': dict(
         level='proof',
         functions=_INT_FUNCS,
